@@ -68,6 +68,21 @@ class Env:
             if job.variant() == 1:
                 return mk_option(True, EnumV('jobs::Job', 0, {0: [job.payload[1][0]]}), ty=dest_ty)
             return mk_option(False, ty=dest_ty)
+        if 'collect_group_by_key' in callee and getattr(self, 'symbolic_maps', False):
+            # vrp_core::utils::CollectGroupBy: grouping by key (the result map as an association list, groups in first-seen order)
+            from symex import AMapV
+            from models import iterator_method, value_eq
+            it = iterator_method(engine, st, 'into_iter', [args[0]], '')
+            groups = []
+            for item in it.items:
+                key = engine.call_closure(st, args[1], [RefV(Cell(item), 0)])
+                for gk, vec in groups:
+                    if engine.split_bool(st, zs(value_eq(gk, key))):
+                        vec.items.append(item)
+                        break
+                else:
+                    groups.append((key, VecV([item])))
+            return AMapV(groups)
         if callee.endswith('load::Load>::ratio'):
             # value/capacity as f64 division: outside the exact-int back end; the result (max-load statistic) is havoc'd and
             # not part of any claim
